@@ -450,10 +450,179 @@ Proof.
     specialize (Hi x Hx); unfold safe_in in Hi; apply andb_true_iff in Hi; tauto.
 Qed.
 
+(* ------------------------------------------------------------------ dot-ness is invariant *)
+(* No registration ever turns a path into, or out of, a dot import - for EVERY
+   configuration (RenderProofs.register_ext shows more, under cfg_ok). *)
+Lemma dec_not_dot name i : (i <> 0)%N -> candidate name i <> s_dot.
+Proof.
+  intros Hi E. unfold candidate in E. apply N.eqb_neq in Hi. rewrite Hi in E.
+  destruct name as [|b name'].
+  - cbn [app] in E. pose proof (N_to_dec_digits i) as Hd. rewrite E in Hd. vm_compute in Hd. discriminate.
+  - injection E as _ E. apply app_eq_nil in E. destruct E as [_ E]. exact (N_to_dec_nonnil i E).
+Qed.
+
+Section DotInv.
+  Variable cfg : config.
+
+  Definition dext (t t' : table) : Prop := forall q, is_dot cfg t' q = is_dot cfg t q.
+
+  Lemma dext_refl t : dext t t.
+  Proof. intros q. reflexivity. Qed.
+  Lemma dext_trans t t' t'' : dext t t' -> dext t' t'' -> dext t t''.
+  Proof. intros H1 H2 q. rewrite H2. apply H1. Qed.
+
+  Lemma is_null_dext t t' c : dext t t' -> is_null cfg t' c = is_null cfg t c.
+  Proof.
+    intros D. induction c as [| | |tk|gid name o cl sep multi items IH|items IH|pairs IH|kvs|s] using code_ind';
+      try reflexivity.
+    - destruct tk; try reflexivity. cbn [is_null]. rewrite D. reflexivity.
+    - cbn [is_null]. destruct (nonempty o || nonempty cl); [reflexivity|].
+      induction IH as [|x l Hx _ IHl]; [reflexivity|]. cbn [forallb]. rewrite Hx, IHl. reflexivity.
+    - cbn [is_null]. induction IH as [|x l Hx _ IHl]; [reflexivity|]. cbn [forallb]. rewrite Hx, IHl. reflexivity.
+    - cbn [is_null]. induction IH as [|[k v] l [Hk Hv] _ IHl]; [reflexivity|]. cbn [forallb fst snd] in *.
+      rewrite Hk, Hv, IHl. reflexivity.
+  Qed.
+
+  Lemma register_dext t path t' n : register cfg t path = Ok (t', n) -> dext t t'.
+  Proof.
+    intros Hr. apply register_cases in Hr.
+    destruct Hr as [Hl | n Hl Hk | Hl Hk HC | name alias i Hl Hk HC Hc Hok Hmin]; try apply dext_refl.
+    - subst path. intros p. unfold is_dot.
+      destruct (str_eqb_spec p s_C) as [->|Hp]; [reflexivity|].
+      rewrite alookup_aset_other by congruence. reflexivity.
+    - intros p. unfold is_dot.
+      destruct (str_eqb_spec p s_C) as [->|Hp]; [reflexivity|].
+      destruct (str_eq_dec p path) as [->|Hne]; [|rewrite alookup_aset_other by congruence; reflexivity].
+      rewrite alookup_aset_same. cbn [id_name id_alias].
+      assert (Hold : match alookup path t with
+                     | Some d => if str_eqb (id_name d) [] || str_eqb (id_name d) s_us
+                                 then hint_is_dot cfg path else str_eqb (id_name d) s_dot && id_alias d
+                     | None => hint_is_dot cfg path
+                     end = hint_is_dot cfg path).
+      { unfold registered_name in Hk. destruct (alookup path t) as [d|]; [|reflexivity].
+        destruct (str_eqb (id_name d) [] || str_eqb (id_name d) s_us); [reflexivity | discriminate]. }
+      rewrite Hold. clear Hold.
+      set (u := candidate name i). set (a' := alias || negb (str_eqb u name)).
+      destruct (str_eqb (with_prefix cfg u a') [] || str_eqb (with_prefix cfg u a') s_us); [reflexivity|].
+      rewrite (choose_name_dot cfg _ _ _ Hc).
+      destruct (str_eqb_spec name s_dot) as [->|Hnd].
+      + (* the name is ".": the first candidate is accepted at once *)
+        assert (i = 0%N) as Hi.
+        { destruct (N.eq_dec i 0) as [E|E]; [exact E|]. exfalso.
+          assert (H0 : candidate_ok cfg t s_dot alias 0 = false) by (apply Hmin; lia).
+          unfold candidate_ok in H0. change (candidate s_dot 0) with s_dot in H0.
+          rewrite with_prefix_dot in H0. unfold is_valid_alias in H0. rewrite str_eqb_refl in H0. discriminate. }
+        subst a' u. rewrite Hi. change (candidate s_dot 0) with s_dot.
+        rewrite str_eqb_refl, with_prefix_dot, str_eqb_refl. cbn [negb andb]. rewrite orb_false_r. reflexivity.
+      + cbn [andb].
+        destruct (str_eqb_spec (with_prefix cfg u a') s_dot) as [Ef|Ef]; cbn [andb]; [|reflexivity].
+        exfalso.
+        assert (Hu : u = s_dot).
+        { destruct (with_prefix_cases cfg u a') as [E|(Hpf & _ & E)]; [congruence|].
+          rewrite E in Ef. assert (L : length (cfg_prefix cfg ++ s_us ++ u) = 1) by (rewrite Ef; reflexivity).
+          rewrite !app_length in L. destruct (cfg_prefix cfg); [congruence|]. simpl in L. lia. }
+        destruct (N.eq_dec i 0) as [E|E].
+        * subst u. rewrite E in Hu. change (candidate name 0) with name in Hu. contradiction.
+        * exact (dec_not_dot name i E Hu).
+  Qed.
+
+  Lemma prereg_dext t c t0 : prereg cfg t c = Ok t0 -> dext t t0.
+  Proof.
+    unfold prereg. destruct c as [| | |tk| | | | |]; try (intros H; injection H as <-; apply dext_refl).
+    destruct tk; try (intros H; injection H as <-; apply dext_refl).
+    destruct (register cfg t path) as [[t' n]|m] eqn:E; cbn [bind fst]; [|discriminate].
+    intros H. injection H as <-. eapply register_dext. exact E.
+  Qed.
+
+  Definition dx (c : code) : Prop := forall ctx t t1 s, render cfg ctx t c = Ok (t1, s) -> dext t t1.
+
+  Lemma group_loop_dext name sep multi nitems items :
+    Forall dx items ->
+    forall t first r, group_loop cfg (render cfg) name sep multi nitems t first items = Ok r -> dext t (fst (fst r)).
+  Proof.
+    intros Hst. induction Hst as [|c l Hc _ IH]; intros t first r; cbn [group_loop].
+    - intros H. injection H as <-. apply dext_refl.
+    - fold (prereg cfg t c). destruct (prereg cfg t c) as [t0|m] eqn:Ep; cbn [bind]; [|discriminate].
+      pose proof (prereg_dext _ _ _ Ep) as H0.
+      destruct (is_null cfg t0 c).
+      + intros H. eapply dext_trans; [exact H0 | eapply IH; exact H].
+      + destruct (str_eqb name s_values && is_dict c && Nat.ltb 1 nitems); [discriminate|].
+        destruct (render cfg false t0 c) as [[ta sa]|m] eqn:Er; cbn [bind fst snd]; [|discriminate].
+        destruct (group_loop cfg (render cfg) name sep multi nitems ta false l) as [rb|m] eqn:El;
+          cbn [bind fst snd]; [|discriminate].
+        intros H. injection H as <-. cbn [fst snd].
+        eapply dext_trans; [exact H0|]. eapply dext_trans; [eapply Hc; exact Er | eapply IH; exact El].
+  Qed.
+
+  Lemma stmt_loop_dext all items :
+    Forall dx items ->
+    forall t first t1 s, stmt_loop cfg (render cfg) all t first items = Ok (t1, s) -> dext t t1.
+  Proof.
+    intros Hst. induction Hst as [|c l Hc _ IH]; intros t first t1 s; cbn [stmt_loop].
+    - intros H. injection H as <- <-. apply dext_refl.
+    - destruct (is_null cfg t c); [apply IH|].
+      destruct (render cfg (case_ctx all c) t c) as [[ta sa]|m] eqn:Er; cbn [bind fst snd]; [|discriminate].
+      destruct (stmt_loop cfg (render cfg) all ta false l) as [[tb sb]|m] eqn:El; cbn [bind fst snd]; [|discriminate].
+      intros H. injection H as <- <-. eapply dext_trans; [eapply Hc; exact Er | eapply IH; exact El].
+  Qed.
+
+  Definition entry_dx (e : dict_entry) : Prop :=
+    forall t t' s, (snd (fst e) t = Ok (t', s) -> dext t t') /\ (snd e t = Ok (t', s) -> dext t t').
+
+  Lemma dict_pass1_dext pairs :
+    Forall (fun kv => dx (fst kv) /\ dx (snd kv)) pairs ->
+    forall t t1 es, dict_pass1 cfg (render cfg) t pairs = Ok (t1, es) -> dext t t1 /\ Forall entry_dx es.
+  Proof.
+    intros Hst. induction Hst as [|[k v] l [Hk Hv] _ IH]; intros t t1 es; cbn [dict_pass1 fst snd].
+    - intros H. injection H as <- <-. split; [apply dext_refl | constructor].
+    - cbn [fst snd] in Hk, Hv. destruct (is_null cfg t k || is_null cfg t v); [apply IH|].
+      destruct (render cfg false t k) as [[ta sa]|m] eqn:Er; cbn [bind fst snd]; [|discriminate].
+      destruct (dict_pass1 cfg (render cfg) ta l) as [[tb esb]|m] eqn:El; cbn [bind fst snd]; [|discriminate].
+      intros H. injection H as <- <-. destruct (IH _ _ _ El) as [Hb Hes].
+      split; [eapply dext_trans; [eapply Hk; exact Er | exact Hb]|].
+      constructor; [|exact Hes]. intros t2 t3 s3. cbn [fst snd]. split; [apply Hk | apply Hv].
+  Qed.
+
+  Lemma dict_pass2_dext several l :
+    Forall entry_dx l ->
+    forall t first t1 s, dict_pass2 several t first l = Ok (t1, s) -> dext t t1.
+  Proof.
+    intros Hst. induction Hst as [|e l He _ IH]; intros t first t1 s; cbn [dict_pass2].
+    - intros H. injection H as <- <-. apply dext_refl.
+    - destruct (snd (fst e) t) as [[ta sa]|m] eqn:Ek; cbn [bind fst snd]; [|discriminate].
+      destruct (snd e ta) as [[tb sb]|m] eqn:Ev; cbn [bind fst snd]; [|discriminate].
+      destruct (dict_pass2 several tb false l) as [[tc sc]|m] eqn:El; cbn [bind fst snd]; [|discriminate].
+      intros H. injection H as <- <-.
+      destruct (He t ta sa) as [H1 _]. destruct (He ta tb sb) as [_ H2].
+      eapply dext_trans; [apply H1; exact Ek|]. eapply dext_trans; [apply H2; exact Ev | eapply IH; exact El].
+  Qed.
+
+  Theorem render_dext : forall c, dx c.
+  Proof.
+    induction c as [| | |tk|gid name o cl sep multi items IH|items IH|pairs IH|kvs|s] using code_ind';
+      intros ctx t t1 s0; cbn [render]; try discriminate.
+    - destruct tk; cbn [render_token]; try (intros H; injection H as <- <-; apply dext_refl).
+      + apply register_dext.
+      + destruct (lit_text l); cbn [bind]; [|discriminate]. intros H; injection H as <- <-; apply dext_refl.
+    - destruct (str_eqb name s_types && forallb (is_null cfg t) items).
+      + intros H. injection H as <- <-. apply dext_refl.
+      + destruct (group_loop cfg (render cfg) name sep multi (length items) t true items) as [r|m] eqn:El;
+          cbn [bind fst snd]; [|discriminate].
+        intros H. injection H as <- <-. eapply group_loop_dext; [exact IH | exact El].
+    - apply stmt_loop_dext. exact IH.
+    - destruct (dict_pass1 cfg (render cfg) t pairs) as [[ta es]|m] eqn:E1; cbn [bind fst snd]; [|discriminate].
+      destruct (dict_pass1_dext pairs IH _ _ _ E1) as [Ha Hes]. intros H2.
+      eapply dext_trans; [exact Ha|]. eapply dict_pass2_dext; [|exact H2].
+      eapply Forall_perm'; [apply Permutation_sym, isort_by_perm | exact Hes].
+    - intros H. injection H as <- <-. apply dext_refl.
+    - intros H. injection H as <- <-. apply dext_refl.
+  Qed.
+End DotInv.
+
 (* ------------------------------------------------------------------ the exact criterion *)
-(* Under cfg_ok null-ness does not change during a render (registrations never turn a path
-   into or out of a dot import), so whether a panic is REACHED can be read off the tree at
-   the initial table: a node is visited iff its ancestors are live (non-null) there. *)
+(* Null-ness does not change during a render (registrations never turn a path into or out
+   of a dot import), so whether a panic is REACHED can be read off the tree at the initial
+   table: a node is visited iff its ancestors are live (non-null) there. *)
 Lemma existsb_eq_in {A} (f g : A -> bool) l : (forall x, In x l -> f x = g x) -> existsb f l = existsb g l.
 Proof.
   induction l as [|x l IH]; intros H; [reflexivity|]. cbn [existsb].
@@ -518,10 +687,10 @@ Section Exact.
   Lemma reach_dict t pairs : reach t (CDict pairs) = existsb (d_item t) pairs.
   Proof. reflexivity. Qed.
 
-  Lemma forallb_null_ext t t' l : ext cfg t t' -> forallb (is_null cfg t') l = forallb (is_null cfg t) l.
+  Lemma forallb_null_ext t t' l : dext cfg t t' -> forallb (is_null cfg t') l = forallb (is_null cfg t) l.
   Proof. intros H. apply forallb_eq_in. intros x _. apply is_null_ext. exact H. Qed.
 
-  Lemma reach_ext t t' c : ext cfg t t' -> reach t' c = reach t c.
+  Lemma reach_ext t t' c : dext cfg t t' -> reach t' c = reach t c.
   Proof.
     intros He.
     induction c as [| | |tk|gid name o cl sep multi items IH|items IH|pairs IH|kvs|s] using code_ind';
@@ -529,23 +698,21 @@ Section Exact.
     - rewrite !reach_group, (forallb_null_ext _ _ _ He).
       destruct (str_eqb name s_types && forallb (is_null cfg t) items); [reflexivity|].
       apply existsb_eq_in. intros x Hx. rewrite Forall_forall in IH. unfold g_item.
-      rewrite (is_null_ext cfg _ _ x He), (IH x Hx). reflexivity.
+      rewrite (is_null_dext cfg _ _ x He), (IH x Hx). reflexivity.
     - rewrite !reach_stmt. apply existsb_eq_in. intros x Hx. rewrite Forall_forall in IH. unfold s_item.
-      rewrite (is_null_ext cfg _ _ x He), (IH x Hx). reflexivity.
+      rewrite (is_null_dext cfg _ _ x He), (IH x Hx). reflexivity.
     - rewrite !reach_dict. apply existsb_eq_in. intros kv Hx. rewrite Forall_forall in IH.
       destruct (IH kv Hx) as [Hk Hv]. unfold d_item, live.
-      rewrite !(is_null_ext cfg _ _ _ He), Hk, Hv. reflexivity.
+      rewrite !(is_null_dext cfg _ _ _ He), Hk, Hv. reflexivity.
   Qed.
-
-  Hypothesis Hcfg : cfg_ok cfg.
 
   Definition ex (c : code) : Prop := forall ctx t, is_panic (render cfg ctx t c) = reach t c.
 
-  Lemma render_ok_ext c ctx t t1 s : render cfg ctx t c = Ok (t1, s) -> ext cfg t t1.
-  Proof. intros H. destruct (render_stable cfg Hcfg c ctx _ _ _ H) as [He _]. exact He. Qed.
+  Lemma render_ok_ext c ctx t t1 s : render cfg ctx t c = Ok (t1, s) -> dext cfg t t1.
+  Proof. apply render_dext. Qed.
 
-  Lemma prereg_ext t c t0 : prereg cfg t c = Ok t0 -> ext cfg t t0.
-  Proof. intros H. destruct (prereg_stable cfg Hcfg _ _ _ H) as [He _]. exact He. Qed.
+  Lemma prereg_ext t c t0 : prereg cfg t c = Ok t0 -> dext cfg t t0.
+  Proof. apply prereg_dext. Qed.
 
   Lemma group_loop_exact name sep multi nitems items :
     Forall ex items ->
@@ -555,17 +722,17 @@ Section Exact.
     intros Hst. induction Hst as [|c l Hc _ IH]; intros t first; cbn [group_loop existsb]; [reflexivity|].
     fold (prereg cfg t c). destruct (prereg_total cfg t c) as [t0 E0]. rewrite E0. cbn [bind].
     pose proof (prereg_ext _ _ _ E0) as He0.
-    assert (Hrest : forall t' f', ext cfg t t' ->
+    assert (Hrest : forall t' f', dext cfg t t' ->
               is_panic (group_loop cfg (render cfg) name sep multi nitems t' f' l) = existsb (g_item t name nitems) l).
     { intros t' f' He. rewrite IH. apply existsb_eq_in. intros x _. unfold g_item.
-      rewrite (is_null_ext cfg _ _ x He), (reach_ext _ _ x He). reflexivity. }
-    unfold g_item at 1. rewrite (is_null_ext cfg _ _ c He0).
+      rewrite (is_null_dext cfg _ _ x He), (reach_ext _ _ x He). reflexivity. }
+    unfold g_item at 1. rewrite (is_null_dext cfg _ _ c He0).
     destruct (is_null cfg t c) eqn:En; cbn [negb andb orb]; [apply Hrest; exact He0|].
     destruct (str_eqb name s_values && is_dict c && Nat.ltb 1 nitems) eqn:Ev; cbn [orb]; [reflexivity|].
     rewrite <- (reach_ext _ _ c He0), <- (Hc false t0).
     destruct (render cfg false t0 c) as [[ta sa]|m'] eqn:Er; cbn [bind fst snd is_panic orb]; [|reflexivity].
     rewrite is_panic_bind_ok. apply Hrest.
-    eapply ext_trans; [exact He0 | eapply render_ok_ext; exact Er].
+    eapply dext_trans; [exact He0 | eapply render_ok_ext; exact Er].
   Qed.
 
   Lemma stmt_loop_exact all items :
@@ -573,12 +740,12 @@ Section Exact.
     forall t first, is_panic (stmt_loop cfg (render cfg) all t first items) = existsb (s_item t) items.
   Proof.
     intros Hst. induction Hst as [|c l Hc _ IH]; intros t first; cbn [stmt_loop existsb]; [reflexivity|].
-    assert (Hrest : forall t' f', ext cfg t t' ->
+    assert (Hrest : forall t' f', dext cfg t t' ->
               is_panic (stmt_loop cfg (render cfg) all t' f' l) = existsb (s_item t) l).
     { intros t' f' He. rewrite IH. apply existsb_eq_in. intros x _. unfold s_item.
-      rewrite (is_null_ext cfg _ _ x He), (reach_ext _ _ x He). reflexivity. }
+      rewrite (is_null_dext cfg _ _ x He), (reach_ext _ _ x He). reflexivity. }
     unfold s_item at 1.
-    destruct (is_null cfg t c) eqn:En; cbn [negb andb orb]; [apply Hrest; apply ext_refl|].
+    destruct (is_null cfg t c) eqn:En; cbn [negb andb orb]; [apply Hrest; apply dext_refl|].
     rewrite <- (Hc (case_ctx all c) t).
     destruct (render cfg (case_ctx all c) t c) as [[ta sa]|m'] eqn:Er; cbn [bind fst snd is_panic orb]; [|reflexivity].
     rewrite is_panic_bind_ok. apply Hrest. eapply render_ok_ext; exact Er.
@@ -588,52 +755,52 @@ Section Exact.
      the Dict started: the key renders (it did in the first pass) and the value's fate is
      the same at every later table *)
   Definition entry_inv (t0 : table) (e : dict_entry) : Prop :=
-    (forall t', ext cfg t0 t' -> exists t'' s, snd (fst e) t' = Ok (t'', s) /\ ext cfg t' t'') /\
-    (forall t', ext cfg t0 t' -> is_panic (snd e t') = is_panic (snd e t0)) /\
-    (forall t' t'' s, snd e t' = Ok (t'', s) -> ext cfg t' t'').
+    (forall t', dext cfg t0 t' -> exists t'' s, snd (fst e) t' = Ok (t'', s) /\ dext cfg t' t'') /\
+    (forall t', dext cfg t0 t' -> is_panic (snd e t') = is_panic (snd e t0)) /\
+    (forall t' t'' s, snd e t' = Ok (t'', s) -> dext cfg t' t'').
 
   Definition vpanic (t0 : table) (e : dict_entry) : bool := is_panic (snd e t0).
 
   Lemma dict_pass2_exact t0 several l :
     Forall (entry_inv t0) l ->
-    forall t first, ext cfg t0 t -> is_panic (dict_pass2 several t first l) = existsb (vpanic t0) l.
+    forall t first, dext cfg t0 t -> is_panic (dict_pass2 several t first l) = existsb (vpanic t0) l.
   Proof.
     intros Hst. induction Hst as [|e l (Hk & Hv & Hve) _ IH]; intros t first He; cbn [dict_pass2 existsb]; [reflexivity|].
     destruct (Hk t He) as (ta & sa & Ek & Hea). rewrite Ek. cbn [bind fst snd].
-    pose proof (ext_trans cfg _ _ _ He Hea) as H0a.
+    pose proof (dext_trans cfg _ _ _ He Hea) as H0a.
     unfold vpanic at 1. rewrite <- (Hv ta H0a).
     destruct (snd e ta) as [[tb sb]|m'] eqn:Ev; cbn [bind fst snd is_panic orb]; [|reflexivity].
-    rewrite is_panic_bind_ok. apply IH. eapply ext_trans; [exact H0a | eapply Hve; exact Ev].
+    rewrite is_panic_bind_ok. apply IH. eapply dext_trans; [exact H0a | eapply Hve; exact Ev].
   Qed.
 
   Lemma dict_pass1_exact pairs :
     Forall (fun kv => ex (fst kv) /\ ex (snd kv)) pairs ->
-    forall t0 t, ext cfg t0 t ->
+    forall t0 t, dext cfg t0 t ->
       match dict_pass1 cfg (render cfg) t pairs with
       | Panic _ => existsb (fun kv => live t0 kv && reach t0 (fst kv)) pairs = true
       | Ok (t1, es) =>
-        ext cfg t t1 /\
+        dext cfg t t1 /\
         existsb (fun kv => live t0 kv && reach t0 (fst kv)) pairs = false /\
         Forall (entry_inv t0) es /\
         existsb (vpanic t0) es = existsb (fun kv => live t0 kv && reach t0 (snd kv)) pairs
       end.
   Proof.
     intros Hst. induction Hst as [|[k v] l [Hk Hv] _ IH]; intros t0 t He; cbn [dict_pass1 fst snd existsb].
-    - split; [apply ext_refl|]. split; [reflexivity|]. split; [constructor | reflexivity].
+    - split; [apply dext_refl|]. split; [reflexivity|]. split; [constructor | reflexivity].
     - cbn [fst snd] in Hk, Hv.
       assert (Hl : live t0 (k, v) = negb (is_null cfg t k || is_null cfg t v)).
-      { unfold live. cbn [fst snd]. rewrite !(is_null_ext cfg _ _ _ He). reflexivity. }
+      { unfold live. cbn [fst snd]. rewrite !(is_null_dext cfg _ _ _ He). reflexivity. }
       rewrite !Hl. clear Hl.
       destruct (is_null cfg t k || is_null cfg t v) eqn:En; cbn [negb andb orb]; [apply IH; exact He|].
       pose proof (Hk false t) as Hkt. rewrite (reach_ext _ _ k He) in Hkt.
       destruct (render cfg false t k) as [[ta sa]|m'] eqn:Er; cbn [bind fst snd is_panic] in *.
       + rewrite <- Hkt. cbn [orb].
         pose proof (render_ok_ext _ _ _ _ _ Er) as Hea.
-        pose proof (ext_trans cfg _ _ _ He Hea) as H0a.
+        pose proof (dext_trans cfg _ _ _ He Hea) as H0a.
         specialize (IH t0 ta H0a).
         destruct (dict_pass1 cfg (render cfg) ta l) as [[tb esb]|m'] eqn:El; cbn [bind fst snd]; [|exact IH].
         destruct IH as (Heb & Hkf & Hes & Hvs).
-        split; [eapply ext_trans; eassumption|]. split; [exact Hkf|]. split.
+        split; [eapply dext_trans; eassumption|]. split; [exact Hkf|]. split.
         * constructor; [|exact Hes]. split; [|split]; cbn [fst snd].
           -- intros t' He'. pose proof (Hk false t') as Hp. rewrite (reach_ext _ _ k He'), <- Hkt in Hp.
              destruct (render cfg false t' k) as [[t'' s'']|m''] eqn:Er'; [|discriminate].
@@ -657,7 +824,7 @@ Section Exact.
       rewrite is_panic_bind_ok. apply group_loop_exact. exact IH.
     - rewrite reach_stmt. cbn [render]. apply stmt_loop_exact. exact IH.
     - rewrite reach_dict. cbn [render].
-      pose proof (dict_pass1_exact pairs IH t t (ext_refl cfg t)) as H1.
+      pose proof (dict_pass1_exact pairs IH t t (dext_refl cfg t)) as H1.
       assert (Hsplit : existsb (d_item t) pairs =
                        existsb (fun kv => live t kv && reach t (fst kv)) pairs ||
                        existsb (fun kv => live t kv && reach t (snd kv)) pairs).
